@@ -172,6 +172,27 @@ def count_on_recursive_type(cg, f, root):
     return False
 
 
+def negated_count(f, neg=False):
+    """a count atom with a literal number occurs under an odd number of negations (or below xor/iff, or left of
+    implies), i.e. negated in negation normal form"""
+    k = f[0]
+    if k == "count":
+        return neg
+    if k == "not":
+        return negated_count(f[1], not neg)
+    if k in ("and", "or"):
+        return any(negated_count(x, neg) for x in f[1:])
+    if k == "implies":
+        return negated_count(f[1], not neg) or negated_count(f[2], neg)
+    if k in ("iff", "xor"):
+        return any(negated_count(x, True) or negated_count(x, False) for x in f[1:])
+    if k in ("forall", "exists"):
+        return negated_count(f[5], neg)
+    if k in ("forallint", "existsint"):
+        return negated_count(f[2], neg)
+    return False
+
+
 def judge(case):
     g, f = case["grammar"], case["formula"]
     start = case.get("start_symbol")
@@ -217,6 +238,11 @@ def judge(case):
                 if fml.sat(cg, t, f, numq_min=1)[0] != v:
                     flagged.add("numq_zero_dependent")
                     continue
+                if fml.sat(cg, t, f, numq_all_ints=True)[0] != v:
+                    # the verdict hinges on whether numeric variables range over numerals only (specification)
+                    # or over all strings (what ISLa implements: open finding numq-all-strings, filed under C03)
+                    flagged.add("numq_reading_dependent")
+                    continue
             except fml.Undecided:
                 continue
         if not v:
@@ -225,6 +251,8 @@ def judge(case):
                 root_cause = ":nth"
             elif count_on_recursive_type(cg, f, root):
                 root_cause = ":count_on_recursive_type"
+            elif negated_count(f):
+                root_cause = ":negated_count"
             viol.append({"sig": "solution:violates_constraint%s" % root_cause, "index": i, "constraint": obs["text"], "string": s,
                          "template": case["template"], "settings": case["settings"]})
             break
